@@ -35,6 +35,7 @@ import (
 //	    fmt.Printf("Result of reflect.methodName: %v\n", f())
 //	}
 func ExposeFunction(funcSymName string, templateFunc interface{}) (function interface{}, err error) {
+	initAlignment.Do(initAlignmentFunc)
 	fn, err := getFunctionSymbolByName(funcSymName)
 	if err != nil {
 		return
